@@ -3,6 +3,7 @@ import Proofs.C10Lookup
 import Proofs.C10Simple
 import Proofs.C10Nts
 import Proofs.C10NtsNodup
+import Proofs.C10NtsSpec
 /-!
 # C10 — replica sets for a token equal Cassandra's placement  (property theorems)
 
@@ -12,7 +13,7 @@ All theorems quantify over every ring / replication setting / token; the only st
 `Sorted` (strictly ascending tokens: what `sort.Sort` produces from pairwise distinct tokens).
 -/
 namespace C10
-open Placement C10Lookup C10Simple C10Nts C10NtsNodup
+open Placement C10Lookup C10Simple C10Nts C10NtsNodup C10NtsSpec
 
 /-! ## ring lookup -/
 
@@ -270,5 +271,85 @@ theorem C10_nts_bound_partial (rfs : List (Nat × Nat)) (hosts : List Host) (tok
 
 example : OneTokenPerNode [(0, ⟨1, 1, 1⟩), (10, ⟨2, 1, 2⟩), (20, ⟨3, 2, 1⟩)] := by
   unfold OneTokenPerNode; decide
+
+/-! ## NetworkTopologyStrategy: model = Cassandra (one token per node) -/
+
+theorem ownerIdx_self (ring : List Entry) (hs : Sorted ring) (i : Nat) (hi : i < ring.length) :
+    Spec.ownerIdx ring (ring[i].1) = i := by
+  unfold Spec.ownerIdx
+  have : ring.findIdx (fun e => decide (ring[i].1 ≤ e.1)) = i := by
+    rw [List.findIdx_eq hi]
+    refine ⟨by simp, ?_⟩
+    intro j hji
+    have := (List.pairwise_iff_getElem.mp hs) j i (by omega) hi hji
+    simp only [decide_eq_false_iff_not]; omega
+  rw [this, if_pos hi]
+
+theorem nodup_foldl_setAdd {α : Type} [DecidableEq α] (l : List α) : ∀ (acc : List α), acc.Nodup →
+    (l.foldl setAdd acc).Nodup := by
+  induction l with
+  | nil => intro acc h; exact h
+  | cons a r ih =>
+    intro acc h
+    simp only [List.foldl_cons]
+    apply ih
+    unfold setAdd
+    by_cases ha : a ∈ acc
+    · simp [ha, h]
+    · simp only [ha, if_false]
+      rw [List.nodup_append]
+      exact ⟨h, by simp, by intro x hx y hy; simp at hy; subst hy; intro e; subst e; exact ha hx⟩
+
+theorem nodup_toSet {α : Type} [DecidableEq α] (l : List α) : (toSet l).Nodup :=
+  nodup_foldl_setAdd l [] (by simp)
+
+/-- the environment in which the simulation runs: ring without vnodes, hosts = the ring's nodes -/
+theorem env_of (rfs : List (Nat × Nat)) (hosts : List Host) (ring : List Entry)
+    (h1 : OneTokenPerNode ring) (hhosts : ∀ x, x ∈ hosts ↔ x ∈ ring.map (·.2))
+    (hkeys : (rfs.map (·.1)).Nodup) (i : Nat) :
+    Env (mkCfg rfs hosts) (Spec.topoOf ring) ([] ++ rot (ring.map (·.2)) i) := by
+  have hf : Spec.firsts (ring.map (·.2)) = ring.map (·.2) := firsts_of_nodup _ h1
+  refine ⟨?_, ?_, ?_, by simpa using rot_nodup _ i h1, hkeys, rfl⟩
+  · intro d
+    simp only [Spec.topoOf, mkCfg, hf]
+    apply List.Perm.length_eq
+    rw [List.perm_ext_iff_of_nodup (nodup_firsts _) (nodup_toSet _)]
+    intro r
+    rw [mem_firsts, mem_toSet]
+    simp only [List.mem_map, List.mem_filter, decide_eq_true_eq]
+    constructor
+    · rintro ⟨x, ⟨hx, hd⟩, rfl⟩; exact ⟨x, ⟨(hhosts x).mpr (by simpa using hx), hd⟩, rfl⟩
+    · rintro ⟨x, ⟨hx, hd⟩, rfl⟩; exact ⟨x, ⟨by simpa using (hhosts x).mp hx, hd⟩, rfl⟩
+  · intro x hx
+    simp only [List.nil_append] at hx
+    exact rack_known rfs hosts x ((hhosts x).mpr ((mem_rot _ _ x).mp hx))
+  · intro d
+    simp only [Spec.topoOf, hf, List.nil_append]
+    apply nodup_subset_length_le
+    · exact List.Sublist.nodup List.filter_sublist (rot_nodup _ i h1)
+    · intro x hx
+      rw [List.mem_filter] at hx ⊢
+      exact ⟨(mem_rot _ _ x).mp hx.1, hx.2⟩
+
+/-- FULL statement (false for the unchanged code because of D1, `C10_cex_nts_dup` / `C10_cex_nts_dup_spec`):
+      every entry of networkTopology.replicaMap's result holds Cassandra's replicas of the entry's token.
+`_partial`: proved for rings with one token per node whose hosts are the ring's nodes (every host owns a token),
+for every rf map (rf 0, rf larger than the DC, DCs unknown to the ring), any number of DCs and racks. -/
+theorem C10_nts_equal_partial (rfs : List (Nat × Nat)) (hosts : List Host) (ring : List Entry)
+    (hs : Sorted ring) (h1 : OneTokenPerNode ring) (hhosts : ∀ x, x ∈ hosts ↔ x ∈ ring.map (·.2))
+    (hkeys : (rfs.map (·.1)).Nodup)
+    (e : Int × List Host) (he : e ∈ ntsDesc rfs hosts ring) : e.2 = Spec.nts ring rfs e.1 := by
+  unfold ntsDesc at he
+  obtain ⟨p, hp, rfl⟩ := List.mem_map.mp he
+  obtain ⟨hi, hel⟩ := mem_indexed ring p (List.mem_filter.mp hp).1
+  simp only
+  unfold Spec.nts ntsReplicasAt
+  rw [← hel, ← rot_owner_eq_clockwise ring _ hs, ownerIdx_self ring hs p.1 hi]
+  have hr : (rot ring p.1).map (·.2) = rot (ring.map (·.2)) p.1 := by simp [rot]
+  rw [hr]
+  exact sim_walk (mkCfg rfs hosts) (Spec.topoOf ring) (rot (ring.map (·.2)) p.1) [] ntsInit Spec.init
+    (env_of rfs hosts ring h1 hhosts hkeys p.1) (good_init _) j_init (sim_init _)
+
+example : Spec.nts [(0, ⟨1, 1, 1⟩), (10, ⟨2, 1, 1⟩), (20, ⟨3, 1, 2⟩)] [(1, 2)] 0 = [⟨1, 1, 1⟩, ⟨3, 1, 2⟩] := by decide
 
 end C10
